@@ -296,8 +296,8 @@ def scan_dirs(prog, r):
             r.ok(key + "|scan-free return only when the directory is missing", "guarded solely by Path::try_exists")
 
 
-def c20f(prog, R):
-    r = R.rule("C20.f", "read APIs never reach a mutator or an unlink (call-graph reachability)", "W")
+def c20f(prog, R, rid="C20.f"):
+    r = R.rule(rid, "read APIs never reach a mutator or an unlink (call-graph reachability)", "W")
     roots = []
     for ty in (A.TREE, A.BLOBTREE):
         for m in READ_APIS:
